@@ -717,6 +717,29 @@ def main():
         ck.part('chars', alphabet=len(PRINTABLE), lines_fed=n, distinct_event_shapes=len(outcomes))
         ck.require(len(outcomes) >= 3, 'printable strings did not reach test/unknown/ignored outcomes')
 
+    # ---------------- part 3b: numbers of every size -------------------------------------------------------
+    # "No input makes the parser raise": every place where the parser converts digits, with digit runs up to and beyond the
+    # length at which int() refuses to convert.  Only the no-raise clause is decided here (the reference consumer is not asked).
+    if ck.want('digits'):
+        forms = ['ok %s', 'not ok %s', 'ok %s - d', 'ok %s # SKIP', '1..%s', '1..%s # SKIP', 'TAP version %s', 'ok 1\n1..%s', '1..2\nok %s', 'ok\nok %s']
+        nd = 0
+        for ln in (1, 5, 20, 100, 1000, 4300, 4301, 10000):
+            for dg in '19':
+                for f in forms:
+                    text = f % (dg * ln)
+                    lines = list(io.StringIO(text + '\n'))
+                    nd += 1
+                    tr, _ = real_trace(lines)
+                    if tr[0] == 'raise':
+                        ck.violation('C18:raise:number-of-%s-digits' % ('more-than-4300' if ln > 4300 else 'up-to-4300'),
+                                     'parser raised %s on the form %r with a %d-digit number' % (tr[1][:120], f, ln), {'part': 'digits', 'raw_lines': lines})
+                    else:
+                        for rc in (0, 1):
+                            v, bad = check_verdict(lines, rc, tr)
+                            if v and v[0] == 'C18:verdict:raise':
+                                ck.violation('C18:verdict:raise:number-of-%d-digits' % ln, v[1][:200], {'part': 'digits', 'raw_lines': lines})
+        ck.part('digits', forms=len(forms), lengths=[1, 5, 20, 100, 1000, 4300, 4301, 10000], streams=nd)
+
     # ---------------- part 4: pinned streams --------------------------------------------------------------
     if ck.want('pinned'):
         for s in PINNED:
